@@ -183,6 +183,86 @@ func dictBFS(depth int) {
 	rep.Extra["dict_state_space_closed"] = len(frontier) == 0
 }
 
+// dictLong: n distinct keys added one after the other, then every key overwritten in reverse order; every
+// observer after every step.  Go maps change representation as they grow (8 entries per bucket, growth
+// and evacuation); three keys never leave the first bucket.
+func dictLong(n int) {
+	d := dict.New[string, int]()
+	m := map[string]int{}
+	var hist []dop
+	keys := make([]string, n)
+	for i := range keys {
+		keys[i] = fmt.Sprintf("k%02d", (i*7)%n) // not in sorted order
+	}
+	if n%7 == 0 {
+		for i := range keys {
+			keys[i] = fmt.Sprintf("k%02d", i)
+		}
+	}
+	checkAll := func() {
+		in := fmt.Sprintf("%d adds of distinct keys, last %v", len(hist), hist[len(hist)-1])
+		for _, k := range append(append([]string{}, keys...), "zz") {
+			wv, wok := m[k]
+			expect("dict.ContainsKey", in+" key "+k, dict.ContainsKey(d, k), wok)
+			r := dict.TryFind(d, k)
+			expect("dict.TryFind", in+" key "+k, fmt.Sprint(r.E0, r.E1), fmt.Sprint(wv, wok))
+			if wok {
+				expect("dict.Item", in+" key "+k, dict.Item(d, k), wv)
+			}
+		}
+		ks := append([]string{}, dict.Keys(d)...)
+		sort.Strings(ks)
+		want := []string{}
+		for k := range m {
+			want = append(want, k)
+		}
+		sort.Strings(want)
+		expect("dict.Keys", in, fmt.Sprint(ks), fmt.Sprint(want))
+		vs := append([]int{}, dict.Values(d)...)
+		sort.Ints(vs)
+		wv := []int{}
+		for _, v := range m {
+			wv = append(wv, v)
+		}
+		sort.Ints(wv)
+		expect("dict.Values", in, fmt.Sprint(vs), fmt.Sprint(wv))
+		got := map[string]int{}
+		cnt := 0
+		for _, kv := range dict.KVs(d) {
+			got[kv.E0] = kv.E1
+			cnt++
+		}
+		expect("dict.KVs", in, canon(got), canon(m))
+		expect("dict.KVs(count)", in, cnt, len(m))
+		rep.Trans++
+		rep.States++
+	}
+	for i, k := range keys {
+		hist = append(hist, dop{k, i})
+		dict.Add(d, k, i)
+		m[k] = i
+		checkAll()
+	}
+	for i := n - 1; i >= 0; i-- {
+		hist = append(hist, dop{keys[i], 1000 + i})
+		dict.Add(d, keys[i], 1000+i)
+		m[keys[i]] = 1000 + i
+		checkAll()
+	}
+	// ToDict of the same history
+	var pairs []frt.Tuple2[string, int]
+	for _, o := range hist {
+		pairs = append(pairs, frt.NewTuple2(o.k, o.v))
+	}
+	td := dict.ToDict(pairs)
+	got := map[string]int{}
+	for _, kv := range dict.KVs(td) {
+		got[kv.E0] = kv.E1
+	}
+	expect("dict.ToDict", fmt.Sprintf("%d pairs", len(pairs)), canon(got), canon(m))
+	rep.Extra["dict_long_keys"] = n
+}
+
 // all histories (not deduplicated) to a smaller depth: overwrite order matters for Add
 func dictHistories(depth int) {
 	st := explore.Explore(-1, func(c *explore.Chooser) {
@@ -237,6 +317,21 @@ func stringsSweep(maxLen int) {
 	alpha := []string{"a", "b", ","}
 	all := allStrings(alpha, maxLen)
 	short := allStrings(alpha, 2)
+	// long strings: lengths around the sizes at which string algorithms switch (8, 16, 32, 64), one or two
+	// separators at every position
+	for _, n := range []int{7, 8, 9, 15, 16, 17, 31, 32, 33, 63, 64, 65, 70} {
+		base := []byte(gostrings.Repeat("ab", n)[:n])
+		all = append(all, string(base))
+		for p := 0; p < n; p++ {
+			b := append([]byte{}, base...)
+			b[p] = ','
+			all = append(all, string(b))
+			b[n-1] = ','
+			all = append(all, string(b))
+			b[0] = ','
+			all = append(all, string(b))
+		}
+	}
 	for _, s := range all {
 		q := fmt.Sprintf("%q", s)
 		expect("strings.Length", q, fstrings.Length(s), len(s))
@@ -284,6 +379,20 @@ func stringsSweep(maxLen int) {
 	}, func(c *explore.Chooser) bool { return !rep.TooMany() })
 	rep.States += st.States
 	rep.Trans += st.Transitions
+	// Concat over longer lists: 4..12 elements, each empty or not, 3 separators
+	st = explore.Explore(-1, func(c *explore.Chooser) {
+		sep := []string{",", "", "ab"}[c.Choose(3)]
+		n := 4 + c.Choose(9)
+		xs := make([]string, n)
+		for i := range xs {
+			if c.Choose(2) == 1 {
+				xs[i] = string(rune('a' + i))
+			}
+		}
+		expect("strings.Concat", fmt.Sprintf("%q %q", sep, xs), fstrings.Concat(sep, xs), gostrings.Join(xs, sep))
+	}, func(c *explore.Chooser) bool { return !rep.TooMany() })
+	rep.States += st.States
+	rep.Trans += st.Transitions
 	rep.Sample(map[string]any{"strings_argument_alphabet": alpha, "max_len": maxLen, "count": len(all)})
 }
 
@@ -310,6 +419,27 @@ func bufSweep(maxWrites int) {
 		b2 := buf.New()
 		buf.Write(b2, "z")
 		expect("buf.String", fmt.Sprintf("%q (after a write to another buffer)", ws), buf.String(b), want)
+	}, func(c *explore.Chooser) bool { return !rep.TooMany() })
+	rep.States += st.States
+	rep.Trans += st.Transitions
+}
+
+// bufLong: writes of sizes around bytes.Buffer's small-buffer and growth thresholds
+func bufLong(maxWrites int) {
+	chunks := []string{"", "x", gostrings.Repeat("y", 63), gostrings.Repeat("z", 65), gostrings.Repeat("w", 1025)}
+	st := explore.Explore(-1, func(c *explore.Chooser) {
+		n := 1 + c.Choose(maxWrites)
+		b := buf.New()
+		want := ""
+		var ws []int
+		for i := 0; i < n; i++ {
+			k := c.Choose(len(chunks))
+			ws = append(ws, len(chunks[k]))
+			buf.Write(b, chunks[k])
+			want += chunks[k]
+		}
+		expect("buf.String", fmt.Sprintf("writes of sizes %v", ws), buf.String(b) == want, true)
+		expect("buf.String", fmt.Sprintf("writes of sizes %v (second read)", ws), buf.String(b) == want, true)
 	}, func(c *explore.Chooser) bool { return !rep.TooMany() })
 	rep.States += st.States
 	rep.Trans += st.Transitions
@@ -517,14 +647,20 @@ func frtSweep() {
 }
 
 func main() {
-	depth, slen, writes := 4, 3, 3
+	depth, slen, writes, longWrites := 4, 3, 3, 4
+	longKeys := []int{9, 20, 40}
 	if len(os.Args) > 1 && os.Args[1] == "thorough" {
-		depth, slen, writes = 6, 4, 4
+		depth, slen, writes, longWrites = 6, 4, 4, 6
+		longKeys = []int{9, 17, 20, 33, 40, 70, 140}
 	}
 	dictBFS(depth + 2)
 	dictHistories(depth)
+	for _, n := range longKeys {
+		dictLong(n)
+	}
 	stringsSweep(slen)
 	bufSweep(writes)
+	bufLong(longWrites)
 	frtSweep()
 	rep.Extra["history_depth"] = depth
 	rep.Emit()
